@@ -28,7 +28,9 @@ RULE = ('seven case streams from one PRNG: (ddl) random class declarations, 1..6
         'create-if-missing / drop-if-present twice; (join) pairs of classes with mirrored / one-sided / switched-off joins created in both '
         'orders; (evo) addColumn/delColumn(changeSchema=True) sequences on a populated sqlite table with an index and a referencing child, '
         'interleaved with steps the class must refuse (addColumn under the name of a method, a live column, a declared index, id; '
-        'delColumn of an unknown name; changeSchema True and False), class vs PRAGMA table_info judged after every step; '
+        'delColumn of an unknown name; changeSchema True and False), class vs PRAGMA table_info judged after every step; the same tables and rows '
+        'also exist in a second database and every step of a history carries no connection= / connection=home / connection=second: the addressed '
+        'table is judged, the other database (sqlite_master text and rows) must stay exactly as it was; '
         '(idem) random sequences over two related classes (mirrored / one-sided / differently named RelatedJoins, both name orders, indexes) of '
         'createTable(ifNotExists, createJoinTables, createIndexes), dropTable(ifExists, dropJoinTables), createJoinTables(ifNotExists), '
         'createIndexes() and an out-of-band DROP TABLE, sqlite_master compared with the declarations after every step; '
@@ -36,7 +38,8 @@ RULE = ('seven case streams from one PRNG: (ddl) random class declarations, 1..6
         '(or that differs in letter case), then create-if-missing twice, insert/read back, drop-if-present twice; '
         '(conn) two sqlite databases, both classes (RelatedJoins, DatabaseIndexes as in idem) bound to the first, which mostly is populated first and '
         'so holds tables of the same names with rows; random histories of createTable / dropTable / createJoinTables / dropJoinTables / '
-        'createIndexes / tableExists / clearTable with their flags, an out-of-band DROP TABLE and an out-of-band INSERT into every table, each call '
+        'createIndexes / tableExists / clearTable with their flags, an out-of-band DROP TABLE of the class table or of ONE link table the class owns '
+        '(half of the cases give a class two or three creating RelatedJoins with their own intermediateTable names) and an out-of-band INSERT into every table, each call '
         'routed by no argument, connection=first or connection=second; BOTH databases (tables with row counts, indexes), the error flag and the answer '
         'are compared after every call; plus createTableSQL / createJoinTablesSQL / createIndexesSQL with connection= one of the seven dialects; (style) mixedToUnder/underToMixed on an exhaustive '
         'small alphabet (lengths <= 4 quick, <= 5 thorough) plus random identifiers. '
@@ -651,8 +654,12 @@ def gen_evo_case(rng):
             ops.append(['add', c, True])
             if not (spec_unique(c) or (spec_notnull(c) and c['defaultSQL'] in (None, 'NULL'))):
                 live.append(spec_final_name(c))     # (only a column the engine surely accepts counts as live)
-    return {'k': 'evo', 'decl': decl, 'others': [parent], 'ops': ops, 'rows': rng.randint(0, 3),
-            'child': rng.random() < 0.5}
+    out = {'k': 'evo', 'decl': decl, 'others': [parent], 'ops': ops, 'rows': rng.randint(0, 3),
+           'child': rng.random() < 0.5}
+    # two-database variant: the class is bound to `home`, the same tables and rows also exist in `second`; every
+    # addColumn/delColumn of the history gets no connection= argument / connection=home / connection=second
+    out['via'] = rng.choice(['second'] * 5 + [None] * 3 + ['home'] * 2)
+    return out
 
 
 def gen_idem_case(rng):
@@ -681,7 +688,28 @@ def gen_idem_case(rng):
     return {'k': 'idem', 'a': c['a'], 'b': c['b'], 'ops': ops}
 
 
-CONN_OPS = ['create', 'drop', 'rawdrop', 'joins', 'indexes', 'dropjoins', 'exists', 'clear', 'fill']
+CONN_OPS = ['create', 'drop', 'rawdrop', 'joins', 'indexes', 'dropjoins', 'exists', 'clear', 'fill', 'rawdroplink']
+
+
+def add_more_joins(rng, c):
+    """one of the two classes gets one or two MORE creating RelatedJoins towards the other class, each with its own
+    explicit intermediateTable (a class that owns two or three link tables); some are mirrored on the other side"""
+    who, oth = rng.choice([('a', 'b'), ('b', 'a')])
+    d, o = c[who], c[oth]
+    for name in rng.sample(['lnk_p', 'lnk_q', 'Lnk_r'], rng.choice([1, 1, 2])):
+        j = {'kind': 'related', 'other': o['cls'], 'inter': name, 'joinColumn': None, 'otherColumn': None,
+             'create': True, 'attr': 'to%s_%s' % (o['cls'], name)}
+        if rng.random() < 0.35:
+            d['joins'].insert(0, j)
+        else:
+            d['joins'].append(j)
+        if rng.random() < 0.3:
+            o['joins'].append({'kind': 'related', 'other': d['cls'], 'inter': name, 'joinColumn': None,
+                               'otherColumn': None, 'create': True, 'attr': 'to%s_%s' % (d['cls'], name)})
+
+
+def link_index_flags(i):
+    return [bool(i & 1), bool(i & 2)]
 CONN_VIA = [None, 'home', 'second']      # no connection= argument (the class's own) / connection=home / connection=second
 
 
@@ -690,6 +718,9 @@ def gen_conn_case(rng):
     home) or by a per-call connection= argument (home or second).  Mostly: home is populated first (so it holds
     tables of the very same names, with rows), then the history runs on second through the argument."""
     c = gen_join_case(rng)
+    if rng.random() < 0.5:
+        add_more_joins(rng, c)
+    owned = {'a': spec_owned_links(c['a'], c['b']), 'b': spec_owned_links(c['b'], c['a'])}
     if rng.random() < 0.5:
         c['a']['indexes'].append({'name': 'ix', 'cols': [['x', None]], 'unique': rng.random() < 0.5})
     if rng.random() < 0.4:
@@ -717,6 +748,18 @@ def gen_conn_case(rng):
         who = rng.choice(['a', 'a', 'b', 'b', 'b'])
         via = rng.choice(['second'] * 7 + [None] * 2 + ['home'])
         flag = rng.random() < 0.65
+        if owned[who] and rng.random() < (0.22 if len(owned[who]) > 1 else 0.06):
+            # somebody drops ONE of the link tables the class owns behind SQLObject's back; then create-if-missing
+            i = rng.randrange(len(owned[who]))
+            ops.append(['rawdroplink', who, via or 'home', False] + link_index_flags(i))
+            if rng.random() < 0.7:
+                if rng.random() < 0.6:
+                    ops.append(['joins', who, via, rng.random() < 0.85, True, True])
+                else:
+                    if rng.random() < 0.6:
+                        ops.append(['rawdrop', who, via or 'home', False, True, True])
+                    ops.append(['create', who, via, rng.random() < 0.85, rng.random() < 0.85, rng.random() < 0.7])
+            continue
         if r < 0.28:
             ops.append(['create', who, via, flag, rng.random() < 0.7, rng.random() < 0.7])
         elif r < 0.50:
@@ -878,6 +921,25 @@ def corpus():
                         ['create', 'a', 'second', False, True, True], ['create', 'b', 'second', False, True, True],
                         ['dropjoins', 'a', 'second', False, True, True], ['joins', 'a', 'second', False, True, True]],
                 'rend': [['a', 'mysql', 0, True, True], ['b', 'postgres', 2, True, True], ['a', 'mssql', 1, True, True]]})
+    # the seeded scenario c14_delcolumn_ignores_connection: delColumn(changeSchema=True, connection=second)
+    out.append({'k': 'evo', 'decl': simple_decl('VcEvo', [intcol('a'), intcol('bB', notNone=True), intcol('c')]),
+                'others': [simple_decl('VcEvoPar', [intcol('p')])],
+                'ops': [['del', 'bB', True], ['add', intcol('fine'), True], ['del', 'a', True]], 'rows': 2, 'child': False,
+                'via': 'second'})
+    # the seeded scenario c14_createjointables_returns_at_first_existing: a class owning three link tables, a later one
+    # dropped out of band, create-if-missing must bring it back (both routes)
+    rj2 = lambda o, t: {'kind': 'related', 'other': o, 'inter': t, 'joinColumn': None, 'otherColumn': None,
+                        'create': True, 'attr': 'to%s_%s' % (o, t)}
+    out.append({'k': 'conn', 'a': simple_decl('VcAccount', [intcol('x')],
+                                              joins=[rj2('VcGrp', None), rj2('VcGrp', 'lnk_p'), rj2('VcGrp', 'lnk_q')]),
+                'b': simple_decl('VcGrp', [intcol('y')]),
+                'ops': [['create', 'a', None, False, True, True], ['create', 'b', None, False, True, True],
+                        ['create', 'a', 'second', False, True, True], ['create', 'b', 'second', False, True, True],
+                        ['rawdroplink', 'a', 'second', False, False, True], ['joins', 'a', 'second', True, True, True],
+                        ['rawdroplink', 'a', 'home', False, True, False], ['joins', 'a', None, True, True, True],
+                        ['rawdrop', 'a', 'second', False, True, True], ['rawdroplink', 'a', 'second', False, True, False],
+                        ['create', 'a', 'second', True, True, True]],
+                'rend': []})
     out.append({'k': 'style', 's': 'XMLFile'})
     out.append({'k': 'style', 's': 'fooId'})
     out.append({'k': 'style', 's': 'a_1'})
@@ -1242,37 +1304,53 @@ def run_join(case):
 
 
 def run_evo(case):
-    conn = new_sqlite()
+    """one database (no 'via' in the case: corpus witnesses of old) or two: the class is bound to `home`, both databases
+    hold the same tables and rows, every step is addressed by case['via'] (None = no argument -> home)"""
+    home = new_sqlite()
+    two = 'via' in case
+    second = new_sqlite() if two else None
+    via = case.get('via')
+    conn = second if via == 'second' else home                     # the addressed database
+    other = (home if conn is second else second) if two else None  # the one nobody asked to change
+    kw = {} if via is None else {'connection': conn}
     reg = _registry()
     decl = case['decl']
     try:
-        others = {od['cls']: build_class(od, conn, reg) for od in case['others']}
-        cls = build_class(decl, conn, reg)
+        others = {od['cls']: build_class(od, home, reg) for od in case['others']}
+        cls = build_class(decl, home, reg)
         child = None
         if case.get('child'):
             child = build_class(simple_decl('VcEvoKid', [{'name': 'evo', 'dbName': None,
                                                           'kind': ['fk', decl['cls'], True, None], 'notNone': False,
                                                           'unique': None, 'alternateID': False, 'default': True,
-                                                          'defaultSQL': None}]), conn, reg)
-        for oc in others.values():
-            oc.createTable()
-        cls.createTable()
-        if child:
-            child.createTable()
-        par = others['VcEvoPar'](p=1)
-        for k in range(case['rows']):
-            vals = {}
-            for c in decl['cols']:
-                vals[spec_final_name(c)] = par.id if c['kind'][0] == 'fk' else 100 * (k + 1) + len(vals)
-            cls(**vals)
+                                                          'defaultSQL': None}]), home, reg)
+        for db in [home] + ([second] if two else []):
+            for oc in others.values():
+                oc.createTable(connection=db)
+            cls.createTable(connection=db)
+            if child:
+                child.createTable(connection=db)
+            par = others['VcEvoPar'](p=1, connection=db)
+            for k in range(case['rows']):
+                vals = {}
+                for c in decl['cols']:
+                    vals[spec_final_name(c)] = par.id if c['kind'][0] == 'fk' else 100 * (k + 1) + len(vals)
+                cls(connection=db, **vals)
         table = cls.sqlmeta.table
 
-        def dump():
-            cols = [r[1] for r in conn.queryAll('PRAGMA table_info(%s)' % table)]
-            rows = [list(r) for r in conn.queryAll('SELECT * FROM %s ORDER BY 1' % table)]
+        def dump(db):
+            cols = [r[1] for r in db.queryAll('PRAGMA table_info(%s)' % table)]
+            rows = [list(r) for r in db.queryAll('SELECT * FROM %s ORDER BY 1' % table)]
             return cols, rows
-        o = {'before': dump(), 'steps': []}
-        from sqlobject import col as C
+
+        def whole(db):
+            """everything in a database nobody addressed: schema text, rows of the class table, child FKs"""
+            return {'master': [list(r) for r in db.queryAll(
+                        "SELECT type, name, tbl_name, sql FROM sqlite_master WHERE name NOT LIKE 'sqlite_%' ORDER BY name")],
+                    'rows': dump(db)[1]}
+        o = {'before': dump(conn), 'steps': []}
+        if two:
+            o['other_before'] = whole(other)
         for op in case['ops']:
             st = {}
             try:
@@ -1280,15 +1358,15 @@ def run_evo(case):
                 if op[0] == 'add':
                     cd = _mkcol(op[1])
                     cd.name = op[1]['name']
-                    cls.sqlmeta.addColumn(cd, changeSchema=cs)
+                    cls.sqlmeta.addColumn(cd, changeSchema=cs, **kw)
                 else:
-                    cls.sqlmeta.delColumn(op[1], changeSchema=cs)
+                    cls.sqlmeta.delColumn(op[1], changeSchema=cs, **kw)
                 st['error'] = None
             except Exception as e:
                 st['error'] = type(e).__name__
             st['class_cols'] = [[c.name, c.dbName] for c in cls.sqlmeta.columnList]
             try:
-                st['table_cols'], st['rows'] = dump()
+                st['table_cols'], st['rows'] = dump(conn)
             except Exception as e:
                 st['table_cols'], st['rows'] = None, None
             st['indexes'] = sorted(r[1] for r in conn.queryAll('PRAGMA index_list(%s)' % table)
@@ -1296,16 +1374,26 @@ def run_evo(case):
             if child:
                 st['child_fk'] = [r[2] for r in conn.queryAll('PRAGMA foreign_key_list(%s)' % child.sqlmeta.table)]
             try:
-                list(cls.select())
+                list(cls.select(connection=conn))
                 st['select_ok'] = True
             except Exception as e:
                 st['select_ok'] = False
+            if two:
+                try:
+                    st['other'] = whole(other)
+                except Exception as e:
+                    st['other'] = 'error:' + type(e).__name__
             o['steps'].append(st)
         o['table'] = table
         o['idName'] = cls.sqlmeta.idName
         return o
     finally:
-        conn.close()
+        for db in (home, second):
+            try:
+                if db is not None:
+                    db.close()
+            except Exception:
+                pass
 
 
 def run_idem(case):
@@ -1465,6 +1553,9 @@ def run_conn(case):
                     cls.clearTable(clearJoinTables=f1, **kw)
                 elif op == 'rawdrop':
                     db.query('DROP TABLE %s' % cls.sqlmeta.table)
+                elif op == 'rawdroplink':
+                    decl, other = (case['a'], case['b']) if who == 'a' else (case['b'], case['a'])
+                    db.query('DROP TABLE %s' % spec_owned_links(decl, other)[int(f1) + 2 * int(f2)])
                 else:
                     _fill_all(db, k)
             except Exception as e:
@@ -1791,6 +1882,11 @@ def coq_case(c, o):
             if op[0] == 'add':
                 return '(%s %s)' % ('EAdd' if cs else 'EAddNoSchema', ccol(op[1], ctx))
             return '(%s %s)' % ('EDel' if cs else 'EDelNoSchema', cstr(op[1]))
+        if 'via' in c:
+            return '(CEvo2 %s %s %s %d%%nat %s %s %s)' % (
+                cdecl(c['decl'], ctx), clist(keep, cstr), clist(rows0, lambda r: clist(r, cz)), CONN_VIA.index(c['via']),
+                clist(c['ops'], cop), clist(o['steps'], cstep),
+                clist(o['steps'], lambda st: cbool(st.get('other') == o['other_before'])))
         return '(CEvo %s %s %s %s %s)' % (cdecl(c['decl'], ctx), clist(keep, cstr), clist(rows0, lambda r: clist(r, cz)),
                                           clist(c['ops'], cop), clist(o['steps'], cstep))
     raise ValueError(k)
@@ -1949,6 +2045,11 @@ def oracle_evo(c, o):
     ix_cols = {o['table'] + '_' + ix['name']: [n for n, _ in ix['cols']] for ix in decl['indexes']}
     for k, (op, st) in enumerate(zip(c['ops'], o['steps'])):
         cls_cols = [idn] + [p[1] for p in st['class_cols']]
+        if 'other' in st and st['other'] != o['other_before']:
+            # the database the step was NOT addressed to (via = None / home -> second; via = second -> home)
+            return {'what': 'step %d %sColumn(connection=%s): the other database changed' % (k, op[0], c.get('via')),
+                    'failures': [{'kind': 'other_database_changed', 'step': k, 'op': op[0], 'via': c.get('via'),
+                                  'before': o['other_before'], 'after': st['other']}]}
         if len(op) > 2 and not op[2] and st['error'] is None:
             # a step WITHOUT schema change that the class accepted (whatever the generator intended):
             # from here on class and table differ by design -- nothing more to judge in this history
@@ -2097,6 +2198,14 @@ def spec_conn_step(db, decl, other, op, k):
         return False, None
     if kind == 'exists':
         return False, t in rows
+    if kind == 'rawdroplink':
+        i = int(f1) + 2 * int(f2)
+        if i >= len(links) or links[i] not in rows:
+            return True, None
+        del rows[links[i]]
+        for ix in [x for x, tb in db['indexes'].items() if tb == links[i]]:
+            del db['indexes'][ix]
+        return False, None
     if kind == 'clear':
         for n in [t] + (links if f1 else []):
             if n not in rows:
